@@ -227,13 +227,42 @@ func genC05(r *core.Rng, id int, fault string) *c05Case {
 		}
 		return c
 	}
+	if fault == "fragment-edit-history" {
+		// step 1: valid -- an operation whose variable is used ONLY inside a named fragment that
+		// lives in another file; step 2: same paths, the operation's file byte-identical, the
+		// fragment's file edited so that nothing uses the variable any more (invalid: unused
+		// variable); step 3 (sometimes): the fragment restored.  Every step is a Generate call of
+		// this one process: what an earlier call saw must not leak into a later verdict.
+		n := len(defs)
+		op := &gen.Def{Kind: "query", Name: "HzFE", Text: "query HzFE($hzA: Boolean!) {\n  ...HzFEFrag\n}\n"}
+		fr1 := &gen.Def{Kind: "fragment", Name: "HzFEFrag", Text: "fragment HzFEFrag on Query {\n  __typename @include(if: $hzA)\n}\n"}
+		fr2 := &gen.Def{Kind: "fragment", Name: "HzFEFrag", Text: "fragment HzFEFrag on Query {\n  __typename\n}\n"}
+		lay := gen.SingleFile(n)
+		fragFile := "ops/hzfrag.graphql"
+		opFile := &gen.File{Name: "ops/hzop.graphql", Defs: []int{n}}
+		ff := &gen.File{Name: fragFile, Defs: []int{n + 1}}
+		if id%2 == 1 {
+			ff = &gen.File{Name: "ops/hzfrag.go", Lits: []*gen.Literal{{Defs: []int{n + 1}, Raw: true}}}
+		}
+		lay.Files = append(lay.Files, opFile, ff)
+		step := func(fr *gen.Def, fault string) *c05Step {
+			all := append(append([]*gen.Def{}, defs...), op, fr)
+			p := &Proj{ID: c.ID, SchemaFiles: map[string]string{"schema.graphql": s.SDL()}, Cfg: &gen.CfgOpts{}, Defs: all, Layout: lay}
+			return &c05Step{Proj: p, Schema: s, Fault: fault}
+		}
+		c.Steps = []*c05Step{step(fr1, "none"), step(fr2, "fragment-edited:variable-no-longer-used")}
+		if r.Chance(0.5) {
+			c.Steps = append(c.Steps, step(fr1, "fragment-restored"))
+		}
+		return c
+	}
 	c.Steps = []*c05Step{mk(defs, s.SDL(), fault)}
 	return c
 }
 
 func RunC05(tier string, seed int64, outDir string, replay string) (*core.Result, error) {
 	res := core.NewResult("C05", tier, seed)
-	res.Rule = "random valid operation sets with ONE injected fault from 23 classes (every validation-rule family, anonymous/keyword names, unusable files) placed in any .graphql file or `# @genqlient` Go literal of a random layout, plus 2-3 step histories over one directory in which only the schema changes at the same paths; reference verdict = gqlparser's validator run by the harness on the union document; non-trivial = the faulty/edited variant; distinct by project text"
+	res.Rule = "random valid operation sets with ONE injected fault from 23 classes (every validation-rule family, anonymous/keyword names, unusable files) placed in any .graphql file or `# @genqlient` Go literal of a random layout, plus 2-3 step histories over one directory (all Generate calls of one process) in which only the schema changes at the same paths, or only the file of a fragment that alone uses an operation's variable; reference verdict = gqlparser's validator run by the harness on the union document; non-trivial = the faulty/edited variant; distinct by project text"
 	per := 8
 	if tier == "thorough" {
 		per = 150
@@ -263,6 +292,11 @@ func RunC05(tier string, seed int64, outDir string, replay string) (*core.Result
 				cases = append(cases, genC05(rng, id, "schema-change-history"))
 				id++
 			}
+		}
+		// appended after the streams above, so that their cases stay what they were
+		for k := 0; k < per; k++ {
+			cases = append(cases, genC05(rng, id, "fragment-edit-history"))
+			id++
 		}
 	}
 	var pterms []string
